@@ -354,7 +354,7 @@ pbt::Config config() {
 #if C17_TSAN
     c.quick = {60, 600, 20, 25}; c.thorough = {400, 8000, 20, 240};
 #else
-    c.quick = {300, 5000, 20, 20}; c.thorough = {3000, 80000, 20, 240};
+    c.quick = {300, 5000, 20, 20}; c.thorough = {1500, 80000, 20, 240};
 #endif
     c.maxShrinkExecs = 800; c.maxShrinkSecs = 30;
     c.rule = "rapidcheck tape -> multibody tree of 1..4 Pin/Slider/Free bodies, 2..20 force elements (Custom with generated parallel/position-only/disabled flags and state-dependent contributions written through a read-delay-write window; built-in ConstantTorque, TwoPointLinearSpring, TwoPointLinearDamper, MobilityLinearDamper), thread count 1..16 (plus a second count in 1/4 of the cases), history of 2..12 state changes (q, u, both, none, enable/disable, invalidate Dynamics) each followed by realize(Acceleration); schedule tape = delay density + bounded hold of non-parallel elements. Non-trivial: >= 2 threads, at least one parallel and one non-parallel element, and a cached mode (CachedAndNonCached or NonCached) exercised; distinct by tape hash.";
